@@ -134,8 +134,8 @@ Qed.
     position, scalars for maps, maps for lists, lists for scalars, arbitrary keys, wrapper
     keys naming any class — whatever the universe, the declared type, the protocol and its
     ignore_wrappers setting: under validator='soft' a value returned by _from_dict_value has
-    the declared type.  Excluded, exactly: ByteArray members over MessagePack (refuted
-    below).  The text readers are any functions that return values of their own kind. *)
+    the declared type.  Excluded, exactly: ByteArray members over MessagePack (a str given
+    for them is refuted below; every other kind is refused).  The text readers are any functions that return values of their own kind. *)
 Theorem C04_dict_typed_partial : forall (C : dcfg) (U : duniverse),
   d_soft C = true -> d_leaf C = dict_leaf (d_proto C) ->
   ((forall p s v, d_rd C p s = Ok v -> rd_kind p v) /\ (forall p b v, d_rdb C p b = Ok v -> rd_kind p v)) ->
@@ -158,8 +158,8 @@ Theorem C04_dict_args_typed_partial : forall (C : dcfg) (U : duniverse),
     args = [] \/ exists c ffs, dsub U c m = true /\ dflat U c = Some ffs /\ Forall2 (dmember_has U) ffs args.
 Proof. exact dict_args_typed_gen. Qed.
 
-(** the excluded region is a defect: over MessagePack a ByteArray member receives whatever
-    the document holds (here the int 3), wrapped in a tuple *)
+(** the excluded region is a defect: over MessagePack a ByteArray member given text (a str,
+    not the bin type) receives that str wrapped in a tuple, not bytes *)
 Theorem C04_dict_msgpack_bytes_refuted :
   exists (C : dcfg) (U : duniverse) fuel t d v,
     d_proto C = PMsgpack /\ d_soft C = true /\ d_leaf C = dict_leaf PMsgpack /\ dwf U = true
